@@ -1,6 +1,6 @@
 // Included inside `mod dev_input_rw` of the harness next to the real text of src/dev_input_rw.rs.
 // Exhaustive native enumeration for C18 through a real pipe (the quick-tier stand-in for the Kani harnesses of /verif/kani):
-//   writer: every known key code x {press, release} as a one-event batch; the empty batch; seeded random batches
+//   writer: every known key code x {press, release} as a one-event batch; the empty batch; seeded random batches; one batch of every length 0..=256, 512, 1024, 2000
 //   reader: foreign records (other types, value 2 and other values, unknown codes) are skipped; round trip of every code
 use crate::keys::KeyCode;
 use nix::fcntl::{fcntl, FcntlArg};
@@ -65,6 +65,15 @@ pub fn c18(seed: u64, budget: u64) -> i32 {
     if sample.is_empty() && len > 2 { sample = format!("{:?}", &evs[..3]); }
     if let Err(m) = check_batch(r, w, &evs) { if fails.len() < 12 { fails.push(format!("{{\"input\":\"batch {:?}\",\"what\":{:?}}}", evs, m)); } }
   }
+  // length sweep: one batch of EVERY length 0..=256 and of the lengths 512, 1024, 2000 (2001 records = 48,024 bytes, below the 64 KiB capacity of the pipe), keys
+  // cycling through all known codes, press / release alternating with a period coprime to the code count: a writer that treats long batches differently
+  // (chunking, a fixed-size buffer, an extra or missing SYN_REPORT from some length on) shows here whatever the seed
+  let mut n_len = 0u64; let mut at = 0usize;
+  for len in (0usize..=256).chain([512usize, 1024, 2000]) {
+    let evs: Vec<Event> = (0..len).map(|j| { let (_, k) = known[(at + j) % known.len()]; if (at + j) % 3 != 1 { Event::Pressed(k) } else { Event::Released(k) } }).collect();
+    at += len; n_len += 1;
+    if let Err(m) = check_batch(r, w, &evs) { if fails.len() < 14 { fails.push(format!("{{\"input\":\"length-sweep batch of {} events starting {:?}\",\"what\":{:?}}}", len, &evs[..len.min(3)], m)); } }
+  }
   // reader: a foreign record followed by a valid one
   let mut rd = DevInputReader { fd: r };
   let types: [u16; 7] = [0, 1, 2, 3, 4, 17, 0xffff];
@@ -91,8 +100,8 @@ pub fn c18(seed: u64, budget: u64) -> i32 {
     match rd.next() { Ok(e) if e == ev => {}, other => { if fails.len() < 20 { fails.push(format!("{{\"input\":\"round trip of code {}\",\"what\":\"reader returned {:?} for {:?}\"}}", c, other, ev)); } } }
     match rd.next() { Err(_) => {}, Ok(e) => { if fails.len() < 20 { fails.push(format!("{{\"input\":\"round trip of code {}\",\"what\":\"a second event {:?} was read after {:?}\"}}", c, e, ev)); } } }
   } }
-  println!("{{\"known_codes\":{},\"one_event_batches\":{},\"random_batches\":{},\"reader_records\":{},\"round_trips\":{},\"sample\":{:?},\"failures\":[{}]}}",
-    known.len(), n_one, n_batch, n_read, n_rt, sample, fails.join(","));
+  println!("{{\"known_codes\":{},\"one_event_batches\":{},\"random_batches\":{},\"length_sweep\":{},\"reader_records\":{},\"round_trips\":{},\"sample\":{:?},\"failures\":[{}]}}",
+    known.len(), n_one, n_batch, n_len, n_read, n_rt, sample, fails.join(","));
   if fails.is_empty() { 0 } else { 1 }
 }
 
